@@ -411,6 +411,12 @@ class MultipartUploader:
             parts = self._upload_parts(
                 upload_id, filename, bucket, key, callback, extra_args
             )
+            self._client.complete_multipart_upload(
+                Bucket=bucket,
+                Key=key,
+                UploadId=upload_id,
+                MultipartUpload={'Parts': parts},
+            )
         except Exception as e:
             logger.debug(
                 "Exception raised while uploading parts, "
@@ -425,12 +431,6 @@ class MultipartUploader:
                     filename, '/'.join([bucket, key]), e
                 )
             )
-        self._client.complete_multipart_upload(
-            Bucket=bucket,
-            Key=key,
-            UploadId=upload_id,
-            MultipartUpload={'Parts': parts},
-        )
 
     def _upload_parts(
         self, upload_id, filename, bucket, key, callback, extra_args
